@@ -1,5 +1,5 @@
 """C20 - options and edits are isolated per call, per block and per thread."""
-from contracts import k_options, k_modifying, k_bistr, k_cache
+from contracts import k_options, k_modifying, k_bistr, k_cache, k_links
 from pyvc.contract import verify_all
 from pyvc import native
 
@@ -9,7 +9,10 @@ def run(rep, tier, seed):
     # its frame obligations (only the entry of the root being edited is touched) are part of the isolation argument
     # a per-node memo keyed before the thread default is resolved would carry one options() block's default into another
     memo = [s for s in k_cache.specs('C20') if s.name == 'memo.own_lines']
-    verify_all(rep, k_options.specs('C20') + k_modifying.specs('C20') + memo)
+    # CPython's shared singleton context / operator instances are reachable from every tree of every thread: the link
+    # kernel must never tag them (unmake) and must replace them by own instances (make)
+    shared = [s for s in k_links.specs('C20') if s.name in ('links.unmake', 'links.make_tree_node')]
+    verify_all(rep, k_options.specs('C20') + k_modifying.specs('C20') + memo + shared)
     k_options.footprint_structural(rep, 'C20')
     k_options.validators_finite(rep, 'C20')
     k_bistr.publication_structural(rep, 'C20')
